@@ -84,4 +84,30 @@ def check(ctx: Ctx) -> str:
     ctx.check(ast.unparse(ne.assigns.get("code_generator_class", ast.Constant(None))) == "NativeCodeGenerator" and ast.unparse(ne.assigns.get("concat", ast.Constant(None))) == "staticmethod(native_concat)", "env:wiring", "nativetypes:NativeEnvironment", "class attributes", "NativeEnvironment must use NativeCodeGenerator and native_concat", ne.loc())
     m = repo.module("nativetypes")
     ctx.check("NativeEnvironment.template_class = NativeTemplate" in m.src and ast.unparse(nt.assigns.get("environment_class", ast.Constant(None))) == "NativeEnvironment", "env:template", "nativetypes:<module>", "template class wiring", "NativeEnvironment.template_class and NativeTemplate.environment_class must point at each other", "src/jinja2/nativetypes.py")
+
+    ctx.rule("R4", "who-may-use the plain string join: rendered pieces that become a *value* (block references `self.x()` / `super()`, generated code's `concat`) are joined with environment.concat, which is the native concat in a native environment; the bare utils.concat is used only at the reviewed text-only sites")
+    allowed = {
+        ("runtime", "markup_join"): "string concatenation operator `~` (always text)",
+        ("runtime", "str_join"): "string concatenation operator `~` (always text)",
+        ("environment", "TemplateModule.__html__"): "explicit text form of a module",
+        ("environment", "TemplateModule.__str__"): "explicit text form of a module",
+        ("environment", "TemplateStream._buffered_generator"): "streaming yields text chunks",
+    }
+    nsite = 0
+    for mod in ("runtime", "environment", "async_utils"):
+        m2 = repo.module(mod)
+        for c in astq.calls(m2.tree):
+            if astq.callee(c) != "concat":
+                continue
+            nsite += 1
+            q = astq.enclosing_qual(c)
+            ctx.check((mod, q) in allowed, f"concat:{mod}:{q}", f"{mod}:{q}", "joins rendered pieces with the plain string concat",
+                      f"{mod}.{q} joins with the bare `concat` (''.join): in a NativeEnvironment a block reference / captured value that consists of one non-string piece must come back as that object (environment.concat = native_concat), and ''.join raises TypeError for it", f"{m2.rel}:{c.lineno}", detail={"site": f"{mod}:{q}", "reason": allowed.get((mod, q))})
+    ctx.floor("plain concat sites", nsite, 4)
+    br = repo.cls("runtime:BlockReference")
+    for meth in ("__call__", "_async_call"):
+        s = ast.unparse(br.methods[meth])
+        ctx.check("self._context.environment.concat(" in s, f"BlockReference.{meth}:env-concat", f"runtime:BlockReference.{meth}", "joins with environment.concat", f"BlockReference.{meth} must join the block's output with environment.concat", br.loc(br.methods[meth]))
+    wc = repo.func("compiler:CodeGenerator.write_commons")
+    ctx.check("concat = environment.concat" in ast.unparse(wc.node), "generated:concat", "compiler:CodeGenerator.write_commons", "generated code binds concat to environment.concat", "generated code must join buffers with environment.concat", wc.loc())
     return __doc__ or ""
